@@ -12,6 +12,7 @@ import Simfile.Model.Notes
 import Simfile.Model.Group
 import Simfile.Model.Engine
 import Simfile.Model.Load
+import Simfile.Model.Entry
 import Simfile.Model.Msd
 import Simfile.Model.MsdParser
 import Simfile.Model.Source
@@ -450,6 +451,20 @@ def handle (j : Json) : R Json := do
     let fs1 := runWrites fs0 (given cfg.backup) ops k
     pure (Json.mkObj [("outcome", jOutcome o), ("ops", jArr jFsOp ops), ("detected", jOptStr (detectEncoding tries)),
                       ("files", jArr (fun (pc : Str × Content) => Json.arr #[jStr pc.1, jContent pc.2]) fs1)])
+  | "obj.text_sm" => pure (jStr (MsdP.msd.renderDoc (serSM (← getSM (← field j "sf")))))
+  | "obj.text_ssc" => pure (match serSSC (← getSSC (← field j "sf")) with | .ok is => jStr (MsdP.msd.renderDoc is) | .error _ => Json.null)
+  | "entry.load" =>
+    -- end-to-end model of loading: the modelled msdparser as tokenizer, the entry-point plumbing, the loading rules
+    let tok : Bool → Str → Tokens := fun st t => (MsdP.parse st t).getD { params := [], strayError := false }
+    let content ← getStr (← field j "content")
+    let strict ← getBool (← field j "strict")
+    let f : FileObj ← (do
+      match (← (← field j "kind").getStr?) with
+      | "wrapper" => pure (FileObj.wrapper (← getOptStr (fieldD j "name" Json.null)) content 0)
+      | "stringIO" => pure (FileObj.stringIO content)
+      | "lines" => pure (FileObj.lines (← getArr getStr (← field j "lines")))
+      | k => throw s!"bad file kind {k}")
+    pure (jExcept jObjErr (fun l => match l with | .sm s => jSM s | .ssc s => jSSC s) (loadFile tok strict f))
   | "msd.parse" =>
     pure (match MsdP.parse (← getBool (← field j "strict")) (← getStr (← field j "text")) with
       | some t => Json.mkObj [("params", jArr jParam t.params), ("tokerr", jBool t.strayError)]
